@@ -16,7 +16,7 @@ class C02(CoreProp):
     id = "C02"
     prop_module = "Props.C02"
     prop_file = "Props/C02.v"
-    coq_targets = ["Props/C02.vo", "Run/Judge_Core.vo"]
+    coq_targets = ["Props/C02.vo", "Run/Judge_Core.vo", "Props/Tables.vo"]
     sizes = {"quick": 320, "thorough": 8000}
     shard = 12
     design_ref = "DESIGN.md section 6/C02"
@@ -40,12 +40,20 @@ class C02(CoreProp):
         "data maps iterate in sorted key order, object literals in source order; objects grown from {} are a listed finding class",
     ]
     not_yet_proved = [
-        "C02_program: forall nodes env, ctl nodes -> dom_C02 env nodes -> exec (parse (compile nodes)) = sem_run nodes (output, final "
-        "environment or the cap error) as ONE theorem through the compiler and the token parser: proved are the executor-level "
-        "theorems for every construct (first-truthy selection over chains of any length, once-per-element iteration in order for "
-        "collections of any length, what is iterated for arrays / data maps / object literals / null, while rounds, the cap error, "
-        "flat never-popped variables, fuel monotonicity); their composition with Pug/Compile.v and Spec/Sem.v rests on the "
-        "correspondence run, where every case is judged against BOTH the model and the independent semantics S",
+        "now a theorem (C02_control_simulation, C02_program_scalar; Proofs/C02SimProofs.v + C01EvalProofs.v + C02InstProofs.v): for the "
+        "each-free control fragment — text, tags without attributes, escaped buffered code, var / assignment / ++, if / else-if / else, "
+        "while with the cap — over the scalar expression fragment (goodS: literals, variables, the core operators, ! unary - ?:, "
+        "operands that can be dead without +) and top-level data that is a map of in-range scalars with lower-first keys, the executor "
+        "run on the TREE-LEVEL lowering (Pug/Lower.v lower_nodes) prints exactly what S (Spec/Sem.v sem_run) prescribes when S raises no "
+        "deviation flag, and ends in the execution error exactly when S prescribes the while-bound error (or the model's fuel runs out: "
+        "OFuel). The tie lower_nodes = parse_program (compile nodes) is checked per case by the judge (Run/Judge_Core.v lower_seam), not "
+        "proved",
+        "remains on the correspondence run: each (arrays / data maps / object literals, loop-variable scoping), case, mixins and blocks, "
+        "attributes, unescaped buffered code, expressions over the heap (arrays, objects, member, index, method calls), data that is not "
+        "a flat map of scalars, and the token-level step parse_program (compile nodes) = lower_nodes as ONE theorem through "
+        "Pug/Compile.v's byte output and the token parser; for those the executor-level theorems of Proofs/C02Proofs.v (first-truthy "
+        "selection, once-per-element iteration in order, what is iterated, while rounds, the cap error, flat variables, fuel "
+        "monotonicity) stay the proved part and every case is judged against BOTH the model and S",
     ]
 
     def generate(self, rng, n, tier):
